@@ -468,12 +468,12 @@ Section Search.
                   /\ forall y, In y xs -> ltb (fst y) t = false -> ltb (fst y) nd = false
     end.
 
-  Lemma fold_chunk_PF t : valid t = true -> forall rest pre base a,
+  Lemma fold_chunk_PF0 t : forall rest pre base a,
     Forall (fun x => valid (fst x) = true) (pre ++ rest) ->
     PF t base pre a ->
     PF t base (pre ++ rest) (fold_chunk t a (base + length pre) rest).
   Proof.
-    intros Ht. induction rest as [|[x it] rest IH]; intros pre base a Hv Ha; cbn [Rcb.fold_chunk].
+    induction rest as [|[x it] rest IH]; intros pre base a Hv Ha; cbn [Rcb.fold_chunk].
     - rewrite app_nil_r. exact Ha.
     - replace (pre ++ (x, it) :: rest) with ((pre ++ [(x, it)]) ++ rest) in * by (rewrite <- app_assoc; reflexivity).
       replace (S (base + length pre)) with (base + length (pre ++ [(x, it)]))%nat by (rewrite app_length; cbn; lia).
@@ -526,11 +526,11 @@ Section Search.
     reduce C ltb (par_fold t l base (firstn k xs)) (par_fold t r (base + k)%nat (skipn k xs)).
   Proof. reflexivity. Qed.
 
-  Lemma par_fold_PF t : valid t = true -> forall s base xs,
+  Lemma par_fold_PF0 t : forall s base xs,
     Forall (fun x => valid (fst x) = true) xs -> PF t base xs (par_fold t s base xs).
   Proof.
-    intros Ht. induction s as [|k l IHl r IHr]; intros base xs Hv; [cbn [Rcb.par_fold]|rewrite par_fold_node].
-    - pose proof (fold_chunk_PF t Ht xs [] base (acc0 C inf) Hv (PF_acc0 t base)) as H.
+    induction s as [|k l IHl r IHr]; intros base xs Hv; [cbn [Rcb.par_fold]|rewrite par_fold_node].
+    - pose proof (fold_chunk_PF0 t xs [] base (acc0 C inf) Hv (PF_acc0 t base)) as H.
       cbn [app length] in H. rewrite Nat.add_0_r in H. exact H.
     - assert (Hv1 : Forall (fun x : keyed => valid (fst x) = true) (firstn k xs)).
       { rewrite <- (firstn_skipn k xs) in Hv. apply Forall_app in Hv. tauto. }
@@ -589,6 +589,11 @@ Section Search.
         split; [exact Hw|]. split; [exact inf_valid|]. split; [reflexivity|].
         intros y Hy. destruct (Hin y Hy) as [A|A]; [apply A0, A|apply A1, A].
   Qed.
+
+  (* the forms used by Proofs/C06Collect.v (the validity of the target is not needed) *)
+  Lemma par_fold_PF t : valid t = true -> forall s base xs,
+    Forall (fun x => valid (fst x) = true) xs -> PF t base xs (par_fold t s base xs).
+  Proof. intros _. exact (par_fold_PF0 t). Qed.
   (* ---------- the loop invariant of the search ---------- *)
   Section OneSearch.
 
@@ -710,7 +715,7 @@ Section Search.
     destruct (negb (ltb mn m && ltb m mx)) eqn:Eexh.
     - (* exhausted: probe at mx *)
       cbn [andb] in H.
-      pose proof (par_fold_PF mx (fin_valid _ Hmx) (sch it) 0%nat xs) as HPF.
+      pose proof (par_fold_PF0 mx (sch it) 0%nat xs) as HPF.
       assert (Hvx : Forall (fun x : keyed => valid (fst x) = true) xs).
       { rewrite Forall_forall in *. intros x Hx. apply fin_valid, xs_fin, Hx. }
       specialize (HPF Hvx).
@@ -770,7 +775,7 @@ Section Search.
     - (* not exhausted: probe at the midpoint, mn < m < mx *)
       cbn [andb] in H.
       apply negb_false_iff, andb_true_iff in Eexh. destruct Eexh as [Emn Emx].
-      pose proof (par_fold_PF m (fin_valid _ Hm) (sch it) 0%nat xs) as HPF.
+      pose proof (par_fold_PF0 m (sch it) 0%nat xs) as HPF.
       assert (Hvx : Forall (fun x : keyed => valid (fst x) = true) xs).
       { rewrite Forall_forall in *. intros x Hx. apply fin_valid, xs_fin, Hx. }
       specialize (HPF Hvx).
